@@ -26,7 +26,11 @@ func c02MakeLeaf(i int, allowUnlimited bool) c02Leaf {
 	l.kind = vConcretize(vNondetInt("kind", 0, maxKind))
 	switch l.kind {
 	case 0:
-		l.n = vConcretize(vNondetInt("n", 0, 3))
+		maxN := int64(3)
+		if vThorough() && i < 2 {
+			maxN = 4
+		}
+		l.n = vConcretize(vNondetInt("n", 0, maxN))
 		l.sch = NewOnce(l.n)
 	case 1:
 		l.d = time.Duration(vNondetInt("d", 1_000_000, 10_000_000_000))
